@@ -10,11 +10,14 @@
 #include <booster/thread.h>
 #include <booster/aio/io_service.h>
 #include <booster/aio/deadline_timer.h>
+#include <booster/aio/stream_socket.h>
+#include <booster/aio/buffer.h>
 #include <booster/aio/reactor.h>
 #include <booster/aio/aio_category.h>
 #include <booster/posix_time.h>
 #include <booster/system_error.h>
 #include <pthread.h>
+#include <dlfcn.h>
 #include <sys/socket.h>
 #include <unistd.h>
 #include <fcntl.h>
@@ -47,8 +50,14 @@ struct PState {
 	long started, finished;
 	long in_gate;                    // gate job currently blocked, or -1
 	bool stopped;
-	PState() : started(0), finished(0), in_gate(-1), stopped(false) { pthread_mutex_init(&m, 0); pthread_cond_init(&cv, 0); }
+	bool stop_at_join;               // the thread calling stop() has left stop()'s critical section and is joining the worker
+	long started_at_stop;            // jobs started when stop() was called (-1: stop not called)
+	bool early_stop;                 // stop() returned while a job body was still running
+	cppcms::thread_pool *pool;
+	PState() : started(0), finished(0), in_gate(-1), stopped(false), stop_at_join(false), started_at_stop(-1), early_stop(false), pool(0)
+	{ pthread_mutex_init(&m, 0); pthread_cond_init(&cv, 0); }
 };
+__thread PState *t_stopper = 0;      // set in the helper thread that calls stop() while a gate job is running
 
 struct Job {
 	PState *st; long k; int kind;
@@ -85,7 +94,36 @@ bool park(PState &st)
 	pthread_mutex_unlock(&st.m);
 	return ok;
 }
+void *stopper_main(void *arg)
+{
+	PState *st = static_cast<PState *>(arg);
+	t_stopper = st;
+	st->pool->stop();                 // blocks in join until the running job has finished
+	t_stopper = 0;
+	pthread_mutex_lock(&st->m);
+	if(st->started != st->finished) st->early_stop = true;
+	st->stopped = true;
+	pthread_cond_broadcast(&st->cv);
+	pthread_mutex_unlock(&st->m);
+	return 0;
+}
 } // anon
+
+// std::thread::join -> pthread_join: lets the harness see that stop() has finished its critical section (shut_down_ is set)
+// although stop() itself cannot return yet
+extern "C" int pthread_join(pthread_t th, void **ret)
+{
+	typedef int (*join_t)(pthread_t, void **);
+	static join_t real = (join_t)dlsym(RTLD_NEXT, "pthread_join");
+	if(t_stopper) {
+		PState *st = t_stopper;
+		pthread_mutex_lock(&st->m);
+		st->stop_at_join = true;
+		pthread_cond_broadcast(&st->cv);
+		pthread_mutex_unlock(&st->m);
+	}
+	return real(th, ret);
+}
 
 std::string c17_pool_case(std::vector<std::string> const &tok)
 {
@@ -94,6 +132,8 @@ std::string c17_pool_case(std::vector<std::string> const &tok)
 	std::map<long, int> ids;
 	{
 		cppcms::thread_pool pool(1);
+		st.pool = &pool;
+		pthread_t stopper; bool have_stopper = false;
 		for(size_t i = 1; i < tok.size();) {
 			std::string const &t = tok[i];
 			if(t == "P" && i + 2 < tok.size()) {
@@ -101,7 +141,7 @@ std::string c17_pool_case(std::vector<std::string> const &tok)
 				i += 3;
 				if(ids.count(k)) continue;
 				pthread_mutex_lock(&st.m);
-				if(!st.stopped) st.waiting.insert(k);
+				if(!st.stopped && st.started_at_stop < 0) st.waiting.insert(k);
 				pthread_mutex_unlock(&st.m);
 				Job j = { &st, k, kind };
 				ids[k] = pool.post(j);
@@ -127,10 +167,26 @@ std::string c17_pool_case(std::vector<std::string> const &tok)
 				i += 1;
 				pthread_mutex_lock(&st.m);
 				bool blocked = st.in_gate >= 0;
+				bool again = st.started_at_stop >= 0;
+				if(!again) st.started_at_stop = st.started;
 				pthread_mutex_unlock(&st.m);
-				if(blocked) { flags.push_back("HARNESS-stop-in-gate"); break; }
-				pool.stop();
-				pthread_mutex_lock(&st.m); st.stopped = true; pthread_mutex_unlock(&st.m);
+				if(again) continue;            // stop() is called once per pool
+				if(blocked) {
+					// a job is running (blocked in its gate): stop() must not return before it has finished, so call it from a
+					// helper thread and go on with the script as soon as the helper is joining the worker
+					if(pthread_create(&stopper, 0, stopper_main, &st) != 0) { flags.push_back("HARNESS-thread"); break; }
+					have_stopper = true;
+					struct timespec ts; clock_gettime(CLOCK_REALTIME, &ts); ts.tv_sec += 60;
+					pthread_mutex_lock(&st.m);
+					int rc = 0;
+					while(rc == 0 && !st.stop_at_join && !st.stopped) rc = pthread_cond_timedwait(&st.cv, &st.m, &ts);
+					pthread_mutex_unlock(&st.m);
+					if(rc != 0) { flags.push_back("HANG"); break; }
+				}
+				else {
+					pool.stop();
+					pthread_mutex_lock(&st.m); st.stopped = true; pthread_mutex_unlock(&st.m);
+				}
 			}
 			else { flags.push_back("HARNESS-badop"); break; }
 			if(!park(st)) { flags.push_back("HANG"); break; }
@@ -150,15 +206,17 @@ std::string c17_pool_case(std::vector<std::string> const &tok)
 			struct timespec ts; clock_gettime(CLOCK_REALTIME, &ts); ts.tv_sec += 60;
 			pthread_mutex_lock(&st.m);
 			int rc = 0;
-			while(rc == 0 && !(st.in_gate < 0 && st.waiting.empty() && st.started == st.finished))
+			while(rc == 0 && !(st.stopped || (st.in_gate < 0 && st.waiting.empty() && st.started == st.finished)))
 				rc = pthread_cond_timedwait(&st.cv, &st.m, &ts);
 			pthread_mutex_unlock(&st.m);
 			if(rc != 0) { flags.push_back("HANG"); break; }
 		}
+		if(have_stopper) pthread_join(stopper, 0);
 	}   // ~thread_pool: stop + join
+	if(st.early_stop) flags.push_back("EARLYSTOP");
 	std::vector<std::string> run;
 	for(size_t i = 0; i < st.run.size(); i++) run.push_back(itos(st.run[i]));
-	return "pool run=" + join(run) + " cancel=" + join(cres) + " flags=" + join(flags);
+	return "pool run=" + join(run) + " cancel=" + join(cres) + " stop=" + (st.started_at_stop < 0 ? std::string("-") : itos(st.started_at_stop)) + " flags=" + join(flags);
 }
 
 // ---------------------------------------------------------------------------------------------------------------
@@ -218,6 +276,68 @@ std::string c17_pool_stress(std::vector<std::string> const &tok)
 	return "pstress ok";
 }
 
+// pstop seed workers producers jobs: stop() racing with post()/cancel() from the producers.  Invariants only: no job twice, a
+// cancelled job never runs, no job body is running when stop() returns, and no job body starts after stop() has returned.
+namespace {
+struct TState { pthread_mutex_t m; std::vector<int> cnt, cancelled; int running; bool stop_returned; std::string problem; };
+struct TJob { TState *s; int k; bool thr;
+	void operator()() const {
+		pthread_mutex_lock(&s->m);
+		if(s->stop_returned && s->problem.empty()) s->problem = "job-started-after-stop-returned " + itos(k);
+		s->cnt[k]++; s->running++;
+		pthread_mutex_unlock(&s->m);
+		if(k % 5 == 0) sched_yield();
+		pthread_mutex_lock(&s->m); s->running--; pthread_mutex_unlock(&s->m);
+		if(thr) throw std::runtime_error("x");
+	} };
+struct TProducer { cppcms::thread_pool *pool; TState *s; int from, to; unsigned seed;
+	void operator()() {
+		std::vector<std::pair<int,int> > mine;
+		for(int k = from; k < to; k++) {
+			TJob j = { s, k, (rand_r(&seed) % 7) == 0 };
+			mine.push_back(std::make_pair(k, pool->post(j)));
+			if(rand_r(&seed) % 3 == 0) {
+				std::pair<int,int> v = mine[rand_r(&seed) % mine.size()];
+				if(pool->cancel(v.second)) { pthread_mutex_lock(&s->m); s->cancelled[v.first]++; pthread_mutex_unlock(&s->m); }
+			}
+			if(rand_r(&seed) % 8 == 0) sched_yield();
+		}
+	} };
+}
+
+std::string c17_pool_stop_stress(std::vector<std::string> const &tok)
+{
+	if(tok.size() < 5) return "pstop BAD-CASE";
+	unsigned seed = atoi(tok[1].c_str()); int workers = atoi(tok[2].c_str()), producers = atoi(tok[3].c_str()), jobs = atoi(tok[4].c_str());
+	int total = producers * jobs;
+	TState st; pthread_mutex_init(&st.m, 0); st.cnt.assign(total + 1, 0); st.cancelled.assign(total + 1, 0); st.running = 0; st.stop_returned = false;
+	{
+		cppcms::thread_pool pool(workers);
+		std::vector<booster::thread *> th;
+		for(int p = 0; p < producers; p++) {
+			TProducer pr = { &pool, &st, p * jobs, (p + 1) * jobs, seed * 7919u + p };
+			th.push_back(new booster::thread(pr));
+		}
+		// stop somewhere in the middle of the posting (the producers go on posting to the stopped pool)
+		unsigned s2 = seed;
+		int spins = rand_r(&s2) % 200;
+		for(int i = 0; i < spins; i++) sched_yield();
+		pool.stop();
+		pthread_mutex_lock(&st.m);
+		if(st.running != 0 && st.problem.empty()) st.problem = "stop-returned-while-job-running";
+		st.stop_returned = true;
+		pthread_mutex_unlock(&st.m);
+		for(size_t i = 0; i < th.size(); i++) { th[i]->join(); delete th[i]; }
+	}
+	if(!st.problem.empty()) return "pstop " + st.problem;
+	for(int k = 0; k < total; k++) {
+		if(st.cnt[k] > 1) return "pstop job-ran-twice " + itos(k);
+		if(st.cancelled[k] > 1) return "pstop job-cancelled-twice " + itos(k);
+		if(st.cnt[k] + st.cancelled[k] > 1) return "pstop cancelled-job-ran " + itos(k);
+	}
+	return "pstop ok";
+}
+
 namespace {
 namespace aio = booster::aio;
 struct LS {
@@ -253,8 +373,14 @@ struct LS {
 };
 struct LH0 { LS *s; int k; void operator()() const { s->ran(k, booster::system::error_code()); } };
 struct LH1 { LS *s; int k; void operator()(booster::system::error_code const &e) const { s->ran(k, e); } };
+// user handler of stream_socket::async_read_some issued from a producer thread
+struct LH2 { LS *s; int k; void operator()(booster::system::error_code const &e, size_t n) const {
+	if((!e) != (n > 0)) { pthread_mutex_lock(&s->m); if(s->problem.empty()) s->problem = "read-some-bad-count " + itos(k); pthread_mutex_unlock(&s->m); }
+	s->ran(k, e); } };
 struct LProducer {
 	LS *s; int ops; unsigned seed; int fa[2], fb[2];
+	aio::stream_socket *sock[2];     // attached to fa[]: half of the descriptor waits go through async_read_some
+	char rbuf[2][64];
 	void operator()() {
 		std::vector<int> timers;
 		int last[2] = { -1, -1 };
@@ -275,9 +401,10 @@ struct LProducer {
 				bool free_slot = last[f] < 0;
 				if(!free_slot) { pthread_mutex_lock(&s->m); free_slot = s->cnt[last[f]] > 0; pthread_mutex_unlock(&s->m); }
 				if(free_slot) {
-					LH1 h = { s, s->fresh(2) };
-					last[f] = h.k;
-					s->srv->set_io_event(fa[f], aio::io_events::in, h);
+					int k = s->fresh(2);
+					last[f] = k;
+					if(rand_r(&seed) % 2) { LH2 h2 = { s, k }; sock[f]->async_read_some(aio::buffer(rbuf[f], sizeof(rbuf[f])), h2); }
+					else { LH1 h = { s, k }; s->srv->set_io_event(fa[f], aio::io_events::in, h); }
 					if(rand_r(&seed) % 2) { char c = 'x'; if(::write(fb[f], &c, 1) < 0) {} }
 				}
 			}
@@ -302,7 +429,7 @@ struct LFinal {
 	LS *s; std::vector<int> fds;
 	void operator()() const {
 		for(size_t i = 0; i < fds.size(); i++) s->srv->cancel_io_events(fds[i]);
-		LFence fence = { s, booster::ptime::microseconds(booster::ptime::now()) + 60000000LL };
+		LFence fence = { s, booster::ptime::microseconds(booster::ptime::now()) + 30000000LL };
 		s->srv->set_timer_event(booster::ptime::now(), fence);
 	}
 };
@@ -333,6 +460,8 @@ std::string c17_loop_stress(std::vector<std::string> const &tok)
 			fcntl(sv[0], F_SETFL, fcntl(sv[0], F_GETFL, 0) | O_NONBLOCK);
 			fcntl(sv[1], F_SETFL, fcntl(sv[1], F_GETFL, 0) | O_NONBLOCK);
 			prod[p].fa[f] = sv[0]; prod[p].fb[f] = sv[1];
+			prod[p].sock[f] = new aio::stream_socket(srv);
+			prod[p].sock[f]->attach(sv[0]);      // not the owner: the descriptor is closed below
 		}
 	}
 	// keep the loop alive until the fence stops it
@@ -351,9 +480,9 @@ std::string c17_loop_stress(std::vector<std::string> const &tok)
 	LFinal fin = { &st, fds };
 	srv.post(fin);
 	{
-		// the fence stops the loop within 60 s at the latest; a loop that does not even notice the posted handler
+		// the fence stops the loop within 30 s at the latest; a loop that does not even notice the posted handler
 		// (lost wake-up) would sleep for an hour: report it and force it out with stop()
-		struct timespec ts; clock_gettime(CLOCK_REALTIME, &ts); ts.tv_sec += 90;
+		struct timespec ts; clock_gettime(CLOCK_REALTIME, &ts); ts.tv_sec += 45;
 		pthread_mutex_lock(&st.m);
 		int rc = 0;
 		while(!st.loop_done && rc == 0) rc = pthread_cond_timedwait(&st.cv, &st.m, &ts);
@@ -363,7 +492,7 @@ std::string c17_loop_stress(std::vector<std::string> const &tok)
 		if(stuck) srv.stop();
 	}
 	loop.join();
-	for(int p = 0; p < producers; p++) for(int f = 0; f < 2; f++) { ::close(prod[p].fa[f]); ::close(prod[p].fb[f]); }
+	for(int p = 0; p < producers; p++) for(int f = 0; f < 2; f++) { delete prod[p].sock[f]; ::close(prod[p].fa[f]); ::close(prod[p].fb[f]); }
 	if(!st.problem.empty()) return "lstress " + st.problem;
 	for(size_t k = 0; k < st.cnt.size(); k++) {
 		if(st.cnt[k] > 1) return "lstress handler-ran-twice " + itos(k) + " kind" + itos(st.kind[k]);
